@@ -320,11 +320,12 @@ func (srv *server) lockDuplicatedID(c *client) (oldSession *gmqtt.Session, err e
 		if oldSession != nil {
 			var oldClient *client
 			oldClient = srv.clients[oldSession.ClientID]
-			srv.mu.Unlock()
 			if oldClient == nil {
-				srv.mu.Lock()
+				// Keep holding the lock: the observation that no connection is online for this client id
+				// must stay valid until the caller has registered the new one.
 				break
 			}
+			srv.mu.Unlock()
 			// if there is a duplicated online client, close if first.
 			zaplog.Info("logging with duplicate ClientID",
 				zap.String("remote", c.rwc.RemoteAddr().String()),
